@@ -118,11 +118,14 @@ static void op(long c, long, vh::Tok& t)
   } else if(!strcmp(o, "fromuint64")) { put_str(String::fromUInt64((uint64)parse_u64(a)));
   } else if(!strcmp(o, "toint") || !strcmp(o, "touint") || !strcmp(o, "toint64") || !strcmp(o, "touint64")) {
     size_t n; unsigned char* d = exact(a, n);
-    String s((const char*)d, n); free(d);
-    if(!strcmp(o, "toint")) put_i64(s.toInt());
-    else if(!strcmp(o, "touint")) put_u64(s.toUInt());
-    else if(!strcmp(o, "toint64")) put_i64(s.toInt64());
-    else put_u64(s.toUInt64());
+    String s((const char*)d, n);
+    // exactly sized C string for the static overloads: the bytes and one terminator, nothing behind it
+    char* z = (char*)malloc(n + 1); memcpy(z, d, n); z[n] = 0; free(d);
+    if(!strcmp(o, "toint")) { put_i64(s.toInt()); putchar(' '); put_i64(String::toInt(z)); }
+    else if(!strcmp(o, "touint")) { put_u64(s.toUInt()); putchar(' '); put_u64(String::toUInt(z)); }
+    else if(!strcmp(o, "toint64")) { put_i64(s.toInt64()); putchar(' '); put_i64(String::toInt64(z)); }
+    else { put_u64(s.toUInt64()); putchar(' '); put_u64(String::toUInt64(z)); }
+    free(z);
   } else if(!strcmp(o, "rtint")) { put_i64(String::fromInt((int)parse_i64(a)).toInt());
   } else if(!strcmp(o, "rtuint")) { put_u64(String::fromUInt((uint)parse_u64(a)).toUInt());
   } else if(!strcmp(o, "rtint64")) { put_i64(String::fromInt64((int64)parse_i64(a)).toInt64());
